@@ -972,10 +972,6 @@ class Database:
                 attrs.update(specialAttrs)
 
             else:  # np.ndarray
-                # Convert Unicode to byte-string
-                if data.dtype.kind == "U":
-                    data = data.astype("S")
-
                 if data.dtype.kind == "O":
                     # Something was added to the data array that caused np to want to
                     # treat it as a general-purpose Object array. This usually happens
@@ -993,6 +989,11 @@ class Database:
                     else:
                         data, specialAttrs = packSpecialData(data, paramDef.name)
                         attrs.update(specialAttrs)
+
+                # Convert Unicode (also a column of strings and Nones, just packed) to byte-strings;
+                # UTF-8 is what np.char.decode assumes when reading
+                if data is not None and data.dtype.kind == "U":
+                    data = np.char.encode(data, "utf-8")
 
             if data is None:
                 continue
